@@ -12,6 +12,7 @@ VARIANTS = {
     # same-length generated source: only the byte order character differs
     'A': ("{}", "x = Int(2)\n    y = Int(2)"),
     'B': ("{}", "x = Int(2, endianness='little')\n    y = Int(2, endianness='little')"),
+    'A4': ("{}", "x = Int(4)\n    y = Int(4)"),
     # different field lists
     'C': ("{}", "x = Int(1)\n    y = Int(4)\n    z = Data(2)"),
     'D': ("{}", "x = Int(2)\n    n = Int(1)\n    d = Data(n)"),
@@ -137,6 +138,17 @@ def define(d, variant, k):
     path = os.path.join(d, 'm.py')
     with builtins.open(path, 'w') as f:
         f.write(source(variant))
+    # the user's own module must not be served from ITS stale bytecode (same size, same second): that is python's
+    # import system, not bisturi's cache; every rewrite of m.py gets a distinct time stamp
+    cpath = os.path.join(d, 'm.counter')
+    try:
+        n = int(builtins.open(cpath).read()) + 1
+    except Exception:
+        n = 1
+    with builtins.open(cpath, 'w') as f:
+        f.write(str(n))
+    os.utime(path, (1_500_000_000 + 7 * n, 1_500_000_000 + 7 * n))
+    importlib.invalidate_caches()
     spec = importlib.util.spec_from_file_location('m', path)
     mod = importlib.util.module_from_spec(spec)
     sys.modules['m'] = mod
